@@ -83,7 +83,7 @@ def index_keys():
         'none': (None, lambda l: l),
         'neg-array': (lambda i: -i.values, lambda l: -l),
         'mod2-array': (lambda i: i.values % 2, lambda l: l % 2),
-        'abs-index': (lambda i: np.abs(i.values), lambda l: abs(l)),
+        'abs-array': (lambda i: np.abs(i.values), lambda l: abs(l)),
         'lower-array': (lambda i: np.char.lower(i.values), lambda l: l.lower()),
         'len-array': (lambda i: np.char.str_len(i.values), lambda l: len(l)),
         'const-array': (lambda i: np.zeros(len(i), dtype=int), lambda l: 0),
@@ -105,13 +105,13 @@ def hier_keys():
 
 INDEX_POOLS = {
     # name: (class spec, labels, applicable key names)
-    'int': ('Index', [3, -1, 2, 0], ('none', 'neg-array', 'mod2-array', 'abs-index', 'const-array', 'identity-index')),
-    'intGO': ('IndexGO', [3, -1, 2, -2], ('none', 'abs-index', 'mod2-array')),
-    'float': ('Index', [1.5, -2.0, 0.25, -0.25], ('none', 'neg-array', 'abs-index', 'identity-index')),
+    'int': ('Index', [3, -1, 2, 0], ('none', 'neg-array', 'mod2-array', 'abs-array', 'const-array', 'identity-index')),
+    'intGO': ('IndexGO', [3, -1, 2, -2], ('none', 'abs-array', 'mod2-array')),
+    'float': ('Index', [1.5, -2.0, 0.25, -0.25], ('none', 'neg-array', 'abs-array', 'identity-index')),
     'str': ('Index', ['b', 'A', 'a', 'Bc'], ('none', 'lower-array', 'len-array', 'const-array', 'identity-index')),
     'date': ('IndexDate', ['2020-03-01', '2019-12-31', '2020-01-15', '2020-02-29'], ('none', 'const-array', 'identity-index')),
     # 40 labels: long enough that an unstable sort kind (quicksort / heapsort) reorders ties (NumPy sorts short arrays by insertion)
-    'intlong': ('Index', [(i * 37) % 101 - 50 for i in range(40)], ('none', 'mod2-array', 'abs-index', 'const-array')),
+    'intlong': ('Index', [(i * 37) % 101 - 50 for i in range(40)], ('none', 'mod2-array', 'abs-array', 'const-array')),
 }
 LONG = 40
 
@@ -475,11 +475,14 @@ def check_frame_values_case(p):
 # =============================================================================================
 # enumeration
 
-def _layouts(kinds, tier, full=True):
+def _layouts(kinds, tier, full=True, cap=None):
     if len(kinds) > 6:
         return [tuple((1, True) for _ in kinds), tuple((1, False) for _ in kinds)]
     arrays = [np.empty(0, dtype=_KIND_DT[k]) for k in kinds]
     lays = [tuple(l) for l in layouts_dtype_safe(arrays)]
+    if cap is not None and len(lays) > cap:          # evenly spread sample that keeps the first and the last layout
+        step = (len(lays) - 1) / (cap - 1)
+        lays = [lays[round(i * step)] for i in range(cap)]
     if full or len(lays) <= 3:
         return lays
     return [lays[0], lays[len(lays) // 2], lays[-1]]
@@ -535,8 +538,8 @@ def cases(tier):
     # D. Frame.sort_values, axis 1: key columns k1 (int), k2 (str), k3 (float), k4 (bool) with ties
     n = 4
     k1_pats = _patterns(3, n, tier)
-    k2_pats = [[0, 1, 0, 1], [1, 1, 0, 0], [2, 0, 1, 0]] if quick else _patterns(3, n, tier)
-    k3_pats = [[0, 0, 1, 1], [1, 0, 2, 0]] if quick else _patterns(3, n, 'quick')
+    k2_pats = [[0, 1, 0, 1], [1, 1, 0, 0], [2, 0, 1, 0]] + ([] if quick else [[0, 0, 0, 0], [2, 2, 0, 1]])
+    k3_pats = [[0, 0, 1, 1], [1, 0, 2, 0]] + ([] if quick else [[0, 1, 0, 1]])
     positions = [['pi', 'k1', 'k2', 'k3', 'pU'], ['k3', 'k2', 'pf', 'k1'], ['k1', 'k3', 'k2']]
     for pos in positions:
         for a in k1_pats:
@@ -550,7 +553,7 @@ def cases(tier):
                    patterns=dict(k1=[(i * mul + i // 5) % 3 for i in range(LONG)], k3=[(i * 5 + i // mul) % 3 for i in range(LONG)]))
     # axis 0: key rows over heterogeneous numeric columns
     k1r = _patterns(3, n, tier)
-    k3r = [[0, 0, 1, 1], [1, 0, 2, 0], [0, 1, 0, 1]] if quick else _patterns(3, n, 'quick')
+    k3r = [[0, 0, 1, 1], [1, 0, 2, 0], [0, 1, 0, 1]] + ([] if quick else [[0, 0, 0, 0], [2, 2, 0, 0], [1, 0, 0, 1]])
     for pos in (['k1', 'p', 'k3'], ['k3', 'k1', 'p'], ['p', 'k1']):
         for col_kinds in (['i', 'f', 'i', 'f'], ['f', 'f', 'i', 'i'], ['i', 'i', 'i', 'i']):
             for a in k1r:
@@ -599,7 +602,7 @@ def expand(case, tier):
             kinds = [KEYCOL[nm][0] if nm in KEYCOL else nm[1] for nm in case['position']]
         else:
             kinds = case['col_kinds']
-        lays = _layouts(kinds, tier, full=not quick)
+        lays = _layouts(kinds, tier, full=not quick, cap=6)
         for bi, by in enumerate(bys):
             by_list = [by] if isinstance(by, str) else by
             numeric = all(KEYCOL[nm][0] in 'if' for nm in by_list)
